@@ -1502,7 +1502,9 @@ impl AllowedRange {
     #[must_use]
     /// Return true if the value is present in the allowed range.
     pub fn contains(&self, value: i64) -> bool {
-        self.min <= value && value < self.max
+        // The range is half-open, so `i64::MAX` as the upper bound can't express "no upper limit".
+        // We treat it as such, otherwise `no_check()` would reject the value `i64::MAX`.
+        self.min <= value && (value < self.max || self.max == i64::MAX)
     }
 
     /// Returns how far we're outside the allowed range.
